@@ -153,7 +153,10 @@ func genSpec(r *vh.Rng, idx int, thorough bool) scenarioSpec {
 			sp.Script[i].RefuseBefore = 0
 		}
 		if sp.Post < 40 {
-			sp.Post = 40 + r.Intn(60)
+			// (not with multi-megabyte packs: hundreds of them per sender are gigabytes in flight)
+			if post := 40 + r.Intn(60); sp.Big < 1<<20 {
+				sp.Post = post
+			}
 		}
 	}
 	sp.Name = fmt.Sprintf("%s/%d senders/%d faults", sp.Mode, sp.Senders, len(sp.Script))
@@ -247,9 +250,9 @@ func main() {
 	rep.Rule = "a case is one scenario: mode (direct|queue) x senders (1|4|16) x entry points (Send, SendFlush(false), SendFlush(true), per-send options) x fault script (per accepted connection: close after j whole frames + m bytes, FIN or RST; refuse k connects) x pack sizes (up to > the 2 MiB write buffer) x queue reconfiguration / stalled consumer under a backlog x idle longer than the write timeout, run on the real client (in a child process) against a loopback collector stand-in; non-trivial = at least one frame was received and (a fault was carried out or several senders ran); distinct by (mode, senders, queue capacity, sizes, reconfiguration, script, connections accepted, frames received)"
 
 	var specs []scenarioSpec
-	replayD42, replayD70 := false, false
+	replayD42, replayD70, replayD71 := false, false, false
 	if env.Replay != "" {
-		specs, replayD42, replayD70 = loadReplay(env.Replay)
+		specs, replayD42, replayD70, replayD71 = loadReplay(env.Replay)
 	} else {
 		specs = fixedSpecs(env.Seed)
 		n := 150
@@ -353,6 +356,34 @@ func main() {
 			}
 		}
 	}
+	// D71 replay (always), in its own process: the public Close() while senders run
+	if env.Replay == "" || replayD71 {
+		d, died, races := runD71Isolated(env)
+		rep.Extra["d71"] = d
+		what := fmt.Sprintf("D71 replay: 4 senders against a healthy collector while another goroutine calls Close() (%d calls in %d rounds): %d of %d accepted packs were never received (%s); %d connections, %d whole frames, %d streams not made of whole handed frames", d.Closes, d.Rounds, d.Lost, d.Accepted, d.Example, d.Conns, d.Frames, d.Broken)
+		if races > 0 {
+			rep.Distribution["race-reports:close-vs-sender"] = races
+			rep.Note("race detector: %d reports in the D71 replay (the public Close() reads and writes conn without the send lock; the replay calls it on purpose while senders run)", races)
+		}
+		switch {
+		case died != "":
+			rep.KnownReplay(keyD71, true, what+" — "+vh.Clip(died, 300))
+			rep.Fail("property", keyD71+":crash", "Close() racing senders: "+vh.Clip(died, 600), map[string]interface{}{"how": what, "output": died})
+		default:
+			rep.KnownReplay(keyD71, d.Lost > 0, what)
+			if d.Lost > 0 {
+				rep.Fail("property", keyD71, "Send returned nil for packs that no connection received although the collector stayed healthy: Close() (no lock) set conn = nil between send()'s nil test and conn.SetWriteDeadline, the nil dereference panicked, send()'s recover() swallowed the panic and send() returned a nil error — "+what,
+					map[string]interface{}{"d71": d, "how": what})
+			}
+			if d.Broken > 0 {
+				rep.Fail("property", "frames_whole:close-race", "Close() racing senders: a connection received bytes that are not whole frames of handed packs followed by at most a prefix of one — "+d.BrokenExample,
+					map[string]interface{}{"d71": d, "how": what})
+			}
+			if d.Other != "" {
+				rep.Note("D71 replay: %s", d.Other)
+			}
+		}
+	}
 	collectRaceLog(rep)
 	sortNotes(rep)
 	if env.Out != "" {
@@ -364,7 +395,7 @@ func main() {
 
 func sortNotes(rep *vh.Report) { sort.Strings(rep.Notes) }
 
-func loadReplay(path string) ([]scenarioSpec, bool, bool) {
+func loadReplay(path string) ([]scenarioSpec, bool, bool, bool) {
 	b, err := os.ReadFile(path)
 	if err != nil {
 		vh.Die("replay: %v", err)
@@ -375,6 +406,7 @@ func loadReplay(path string) ([]scenarioSpec, bool, bool) {
 			Spec *scenarioSpec   `json:"spec"`
 			D42  json.RawMessage `json:"d42"`
 			D70  json.RawMessage `json:"d70"`
+			D71  json.RawMessage `json:"d71"`
 		} `json:"cases"`
 	}
 	if err := json.Unmarshal(b, &f); err != nil {
@@ -383,12 +415,16 @@ func loadReplay(path string) ([]scenarioSpec, bool, bool) {
 	var out []scenarioSpec
 	d42 := f.Key == keyD42
 	d70 := strings.HasPrefix(f.Key, keyD70) && len(f.Cases) > 0 && f.Cases[0].Spec == nil
+	d71 := strings.HasPrefix(f.Key, keyD71) || f.Key == "frames_whole:close-race"
 	for _, c := range f.Cases {
 		if len(c.D42) > 0 {
 			d42 = true
 		}
 		if len(c.D70) > 0 {
 			d70 = true
+		}
+		if len(c.D71) > 0 {
+			d71 = true
 		}
 		if c.Spec != nil {
 			// a schedule-dependent failure may need several runs of the same scenario
@@ -397,5 +433,5 @@ func loadReplay(path string) ([]scenarioSpec, bool, bool) {
 			}
 		}
 	}
-	return out, d42, d70
+	return out, d42, d70, d71
 }
